@@ -601,6 +601,15 @@ def run_sized(ctx, size):
     t4 = time.time()
     log("[C19] %s: print %.1fs, midpoints %.1fs, parse %.1fs, lex %.1fs" % (size, t1 - t0, t2 - t1, t3 - t2, t4 - t3))
     ctx.cov["phase_seconds"] = {"print": round(t1 - t0, 1), "midpoints": round(t2 - t1, 1), "parse": round(t3 - t2, 1), "lex": round(t4 - t3, 1)}
+    # thorough only: the fast digit search of print_f64 against the slow reference search (model-internal)
+    n_ref = 0
+    if size == "thorough":
+        rb = [b for b in bits if not is_nan_bits(b) and 0 < (b & ~SIGN & MASK) < INF]
+        rb = rng.sample(rb, min(160, len(rb)))
+        n_ref = len(rb)
+        for b, v in zip(rb, coq_lists("run_ref_w", [str(b) for b in rb], 5, "C19ref")):
+            if v != "T":
+                ctx.broken.append("shortest_digits != shortest_digits_ref for bits %d (%s)" % (b, v))
     # keep the report short
     byk = {}
     for v in ctx.violations:
@@ -626,7 +635,7 @@ def run_sized(ctx, size):
             "lex_programs": len(cases),
         },
         "samples": [{"bits": b, "text": t[:60]} for b, t in printed[-3:]] + ex(nt_b, 3) + [c["prog"] for c in cases[-3:]],
-        "print_cases": n_a, "parse_cases": n_b, "lex_cases": n_c,
+        "print_cases": n_a, "parse_cases": n_b, "lex_cases": n_c, "reference_search_cases": n_ref,
         "source_structure": src_structure(ctx),
     })
 
